@@ -100,6 +100,17 @@ def cases(tier, rng):
                    "fwire a", "bwire x", "status"]
             out.append("p%d proxy ROUTER DEALER / %s" % (k, " / ".join(ops)))
             k += 1
+    # back-pressure on the CAPTURE connection (transient, and standing while more than the write mark piles up, then released):
+    # the capture socket still gets a copy of every forwarded message
+    for pair, fpt, bpt in ((("DEALER", "DEALER"), "DEALER", "DEALER"), (("ROUTER", "DEALER"), "REQ", "REP")):
+        for how in ("cwplan p", "cwplan p,w1,p,p,w3", "cwmode stall"):
+            for size in (300, 70000):
+                ops = ["fattach a %s id=4361" % fpt, "battach x %s id=5778" % bpt, how]
+                for i in range(5):
+                    ops += ["ffeed a " + W.tok(W.msg([b"", b"q%d" % i, b"y" * size])), "settle"]
+                ops += ["cwmode all", "ffeed a " + W.tok(W.msg([b"", b"last"])), "settle", "settle", "bwire x", "cwire", "status"]
+                out.append("p%d proxy %s %s cap / %s" % (k, pair[0], pair[1], " / ".join(ops)))
+                k += 1
     # the real REQ - ROUTER/DEALER proxy - REP chain on the real runtime (second sentence of the property)
     out += chaincases.cases(tier, rng, k)
     return out
@@ -109,7 +120,7 @@ def model_cases(case_lines):
     # the model's writers accept everything at once: back-pressure plans exist on the implementation side only
     import re
     # a client that comes back under its identity is the same client to the chain model (connections are FIFO queues per client)
-    return [re.sub(r" / reconn \d+", "", re.sub(r" / [fb]wplan \S+ \S+", "", l)) for l in case_lines]
+    return [re.sub(r" / cw(mode|plan) \S+", "", re.sub(r" / reconn \d+", "", re.sub(r" / [fb]wplan \S+ \S+", "", l))) for l in case_lines]
 
 
 def canon(obs, line=None):
